@@ -137,6 +137,20 @@ fn build(rng: &mut Rng) -> Plan {
         }));
         features.push("nested_scope_expression");
     }
+    // a scoped variable that holds a graph node created by its own value expression: however
+    // often and from wherever it is read, it is that one node
+    let shared_node = rng.chance(1, 3);
+    if shared_node {
+        items.insert(0, Item::Inherit("gnode".to_string()));
+        let k = if rng.chance(2, 3) { 0 } else { rng.below(3) };
+        let (_, q, cap) = KINDS[k];
+        let mut stmts = vec![stmt(StmtKind::Let(GVar::s(GExpr::cap(cap), "gnode"), GExpr::call("node", vec![])))];
+        if rng.chance(1, 2) {
+            stmts.push(stmt(StmtKind::AttrNode(GExpr::scoped(GExpr::cap(cap), "gnode"), vec![GAttr { name: "shared_at".into(), value: Some(node_value(cap, "shared")) }])));
+        }
+        items.push(Item::Stanza(GStanza { query: q.into(), pool: None, stmts, loc: Loc::default() }));
+        features.push("graph_node_valued_scoped_variable");
+    }
     // readers
     let nreaders = rng.range(1, 4);
     for ri in 0..nreaders {
@@ -151,6 +165,9 @@ fn build(rng: &mut Rng) -> Plan {
                 "" => {
                     used.push(*cap);
                     attrs.push(GAttr { name: format!("at_{}", cap), value: Some(node_value(cap, "reader")) });
+                    if shared_node && rng.chance(2, 3) {
+                        stmts.push(stmt(StmtKind::Edge(GExpr::var(&node), GExpr::scoped(GExpr::cap(cap), "gnode"))));
+                    }
                     // read one or two names: prefer names that can resolve
                     for _ in 0..rng.range(1, 2) {
                         let risky = rng.chance(1, 10);
